@@ -89,6 +89,31 @@ def run_tv(ctx, n_cases, max_len=800):
                                 ix_phase.DTYPES[i % len(ix_phase.DTYPES)]))
         metas.append({'kind': c['kind'], 'first_extrema': first, 'boundary': boundary, 'with_midpoints': with_mid, 'midpoints': mids, 'sig_dtype': ix_phase.DTYPES[i % len(ix_phase.DTYPES)].__name__,
                       'last_cyclepoint_to_end': len(c['sig']) - 1 - max(pk + tr)})
+    # placements that START or END with a midpoint (the cycle order peak -> decay -> trough -> rise entered at a midpoint): the span of the
+    # supplied cyclepoints then begins / ends at that midpoint, at every distance from the neighbouring extremum
+    outer = 0
+    for n, ext in ((14, [4, 7, 10]), (16, [3, 6, 9, 12]), (13, [5, 8]), (30, [9, 14, 20])):
+        for pf in (0, 1):
+            odd, even = ext[0::2], ext[1::2]
+            pk, tr = (odd, even) if pf else (even, odd)
+            inner = [(a + b) // 2 for a, b in zip(ext, ext[1:])]
+            for lead in [None] + list(range(0, ext[0])):
+                for trail in [None] + list(range(ext[-1] + 1, n)):
+                    if lead is None and trail is None:
+                        continue
+                    rs, dc = [], []
+                    for k, m in enumerate(inner):
+                        (dc if (pf == 1) == (k % 2 == 0) else rs).append(m)
+                    if lead is not None:
+                        (rs if pf else dc).insert(0, lead)          # before a first peak comes a rise, before a first trough a decay
+                    if trail is not None:
+                        last_is_peak = (len(ext) % 2 == 1) == bool(pf)
+                        (dc if last_is_peak else rs).append(trail)
+                    recs.append(record_case(n, pk, tr, rs, dc, ix_phase.DTYPES[outer % len(ix_phase.DTYPES)]))
+                    metas.append({'kind': 'placement entered / left at a midpoint', 'first_extrema': 'peak' if pf else 'trough', 'boundary': 0, 'with_midpoints': True, 'midpoints': 'both',
+                                  'sig_dtype': ix_phase.DTYPES[outer % len(ix_phase.DTYPES)].__name__, 'last_cyclepoint_to_end': n - 1 - max(ext + [trail or 0]), 'lead': lead, 'trail': trail})
+                    outer += 1
+    ctx.parts.append({'part': 'placements_entered_or_left_at_a_midpoint', 'cases': outer})
     verdicts = tv.validate(ctx, 'Trace_Phase', recs, label='Trace_Phase')
     for r, m, fails in zip(recs, metas, verdicts):
         for f in fails:
